@@ -3,6 +3,7 @@ import itertools
 import random
 
 from .core import cps, REPO  # noqa
+from .lexclasses import coarse
 
 # class representatives (DESIGN 4.1); order matters only for reproducibility
 SIGMA = ["'", '"', '`', '´', '\\', '-', '/', '*', '#', '$', '+', ':', '?',
@@ -42,7 +43,7 @@ class LexRecorder:
         """-> trace dict"""
         from sqlparse import lexer, tokens as T
         tr = {'id': tid, 'text': cps(text), 'nrules': max(self.nrules, 1),
-              'ev': [], 'exc': '', 'plain': False}
+              'ev': [], 'exc': '', 'plain': False, 'region': {'lo': 0, 'hi': 0, 'ty': ''}}
         # 1. the real entry point
         real = None
         try:
@@ -78,6 +79,7 @@ class LexRecorder:
                               'sametext': True}
                     ev['err'] = tt is T.Error
                     ev['ty'] = str(tt)
+                    ev['cty'] = coarse(tt)
                     ev['val'] = cps(v)
                     evs.append(ev)
                     inst.append((str(tt), v))
@@ -94,7 +96,7 @@ class LexRecorder:
             for tt, v in real:
                 tr['ev'].append({'scans': 1, 'pos': p, 'tried': 0, 'rule': 0,
                                  'end': p + len(v), 'err': tt == 'Token.Error',
-                                 'ty': tt, 'val': cps(v)})
+                                 'ty': tt, 'cty': coarse(tt), 'val': cps(v)})
                 p += len(v)
         return tr
 
